@@ -106,6 +106,20 @@ def find_loops(body):
     return res
 
 
+class SynthItem:
+    def __init__(self, header, body, line, note):
+        self.header = header
+        self.body = body
+        self.text = header + body
+        self._line = line
+        self.src = header + body
+        self.header_start = 0
+        self.note = note
+
+    def line(self):
+        return self._line
+
+
 class Fn:
     def __init__(self, unit, qual, rel, line, role):
         self.unit = unit
@@ -207,12 +221,18 @@ class Unit:
 
     def fn(self, rel, header_re, name=None, within_re=None, requires=None, ensures=None,
            decreases=None, loops=None, hints=None, edits=None, ret='r', nth=0,
-           prefix='', opens_with=None, canary=True, no_unwind=False):
-        it = self.locate(rel, header_re, within_re, nth=nth)
+           prefix='', opens_with=None, canary=True, no_unwind=False, synth=None):
+        if synth is not None:
+            # D3: text produced by expanding a macro_rules! body found in the source
+            it = SynthItem(*synth)
+        else:
+            it = self.locate(rel, header_re, within_re, nth=nth)
         qual = name or re.sub(r'[\\^()<]', '', header_re).replace('fn ', '').strip()
         fid = '%s/%s' % (self.name, qual)
         f = Fn(self.name, qual, rel, it.line(), 'verified')
         f.sha_repo = sha(it.text)
+        if synth is not None:
+            f.edits.append(('D3', it.note, ''))
         header = it.header
         body = it.body
         header = drop_attrs(header, f.edits)
